@@ -216,6 +216,21 @@ func checkC10(c *Ctx, r *Report) {
 				{Cond: w.nilTestOf(fi, "*definitions.ParamPassedIn"), Pol: true, Desc: "no passed-in annotation (reported by the link validator)"},
 			}
 		}, true, "every non-context parameter with a location is checked against the others (one body, no body+form)")
+	// every located parameter is type-checked: as a body or as a non-body parameter - there is
+	// no location for which neither check runs
+	ruleEach(c, r, "C10.b", vp,
+		func(fi *FuncInfo) func(ast.Expr) bool {
+			return w.rangeOverField(fi, "core/metadata.ReceiverMeta.Params")
+		}, "receiver.Params",
+		func(fi *FuncInfo) func(ast.Node) bool {
+			return w.callPred(fi, "(core/validators.ReceiverValidator).validateBodyParam", "(core/validators.ReceiverValidator).validateNonBodyParam")
+		}, "validateBodyParam | validateNonBodyParam",
+		func(fi *FuncInfo) []skipSpec {
+			return []skipSpec{
+				{Cond: w.condCalls(fi, "(core/metadata.TypeUsageMeta).IsContext"), Pol: true, Desc: "context parameter"},
+				{Cond: w.nilTestOf(fi, "*definitions.ParamPassedIn"), Pol: true, Desc: "no passed-in annotation (reported by the link validator)"},
+			}
+		}, true, "every non-context parameter with a location is checked by validateBodyParam or validateNonBodyParam")
 	for _, sub := range []string{"validateBodyParam", "validateNonBodyParam", "validateParamsCombinations"} {
 		ruleResultReturned(c, r, "C10.b", vp, "(core/validators.ReceiverValidator)."+sub)
 	}
